@@ -17,6 +17,12 @@ add('C04', 'pattern proxies on every exported PAT_* + set-algebra oracle on the 
 add('C07', 'recorder on the real normalize_event_code; closure/idempotence/refusal judged online, equivalence classes from a denotation-preserving variant generator',
     'Codes from the syntax tree of the current patterns and all scoring-table keys, each with its case/whitespace/suffix/trailing-zero variants, plus near-miss strings; every observed call judged.',
     'Variants are equivalent by construction of the rewrites and kept only when the real checker accepts them; family clause one-directional.', 'C07')
+add('C17', 'recorders on get_specific_event_code / get_implement_weight; closure with the real checker and normaliser, independent weight parser, numeric band monitor, live table-key scan',
+    'Exhaustive cross product of throws x gender x every label the library can produce plus arbitrary labels; all non-throw codes sampled from the syntax tree; every key of every scoring and grading table checked against the real checker.',
+    'Masters monotonicity judged on the five-year bands only; labels without a tabulated weight must merely not raise.', 'C17')
+add('C10', 'recorders on the seven sort/measure/classify functions; totality online, ordering on the list sorted by the real key, sorter permutation/stability monitor',
+    'Codes generated from the syntax tree of the current patterns (ASCII and Unicode variants), table keys and customary codes through all seven functions; ordering clauses on the sorted list and 60k (quick) random pairs for the text key; seeded lists with repeated/missing disciplines for the sorter.',
+    'Categories for the ordering clause come from the real family patterns; yard codes and ambiguous relay pairs unspecified.', 'C10')
 _all = ['C%02d' % i for i in range(1, 20)]
 for p in _all:
     if p not in CHECKS:
